@@ -92,6 +92,12 @@ def _profile_functions(fn):
 
 def _run_instance(job):
     idx, group, inst, opts = job
+    kill = os.environ.get("VERIF_SELFTEST_KILL")  # "<idx>:<marker file>[:always]" -- runner self-test only
+    if kill and kill.split(":")[0] == str(idx):
+        marker = kill.split(":")[1]
+        if kill.endswith(":always") or not os.path.exists(marker):
+            open(marker, "w").close()
+            os.kill(os.getpid(), 9)
     from symx import core
     mod = _worker_mod
     rng = random.Random((opts["seed"] << 20) ^ idx)
@@ -168,6 +174,98 @@ def _jsonable(x):
 
 # ----------------------------------------------------------------------------- parent side
 
+_POOL_RESTARTS = 0
+
+
+def _kill_pool(pool):
+    """Stop an executor without waiting for running tasks (hung or orphaned workers are killed)."""
+    procs = list((getattr(pool, "_processes", None) or {}).values())
+    try:
+        pool.shutdown(wait=False, cancel_futures=True)
+    except Exception:  # noqa
+        pass
+    for p in procs:
+        try:
+            p.kill()
+        except Exception:  # noqa
+            pass
+
+
+def _run_pool(modname, prop, jobs, nproc, t0, budget, hard, max_restarts=3):
+    """Run the instance jobs on a process pool.  `core` jobs are all submitted; `ext` jobs are
+    topped up while the soft budget allows.  A worker process that dies (killed by the OS,
+    native crash) breaks the executor: the unfinished jobs are then re-submitted to a fresh pool
+    (at most `max_restarts` times) instead of being waited for until the hard deadline.
+    Returns (results, skipped_indices) or None when inconclusive (already reported)."""
+    global _POOL_RESTARTS
+    from concurrent.futures import ProcessPoolExecutor
+    from concurrent.futures.process import BrokenProcessPool
+    ctx = mp.get_context("spawn")
+
+    def new_pool():
+        return ProcessPoolExecutor(max_workers=nproc, mp_context=ctx, initializer=_worker_init,
+                                   initargs=(modname, REPO))
+
+    queue = [j for j in jobs if j[1] == "core"]      # to submit unconditionally
+    ext = [j for j in jobs if j[1] != "core"]        # to submit while the budget allows
+    results, skipped = [], []
+    inflight = {}
+    pool = new_pool()
+    try:
+        while True:
+            while queue:
+                j = queue.pop(0)
+                inflight[pool.submit(_run_instance, j)] = j
+            while ext and len(inflight) < nproc * 2:
+                if time.time() - t0 > budget:
+                    skipped += [j[0] for j in ext]
+                    ext = []
+                    break
+                j = ext.pop(0)
+                inflight[pool.submit(_run_instance, j)] = j
+            if not inflight and not ext:
+                break
+            done = [f for f in inflight if f.done()]
+            broken = False
+            for f in done:
+                j = inflight.pop(f)
+                exc = f.exception()
+                if exc is None:
+                    results.append(f.result())
+                elif isinstance(exc, BrokenProcessPool):
+                    broken = True
+                    (queue if j[1] == "core" else ext).insert(0, j)
+                else:
+                    results.append(dict(idx=j[0], group=j[1], inst=j[2], crash=repr(exc)))
+            if broken:
+                # every other pending future of this executor is lost as well
+                for f, j in list(inflight.items()):
+                    if f.done() and f.exception() is None:
+                        results.append(f.result())
+                    else:
+                        (queue if j[1] == "core" else ext).insert(0, j)
+                inflight.clear()
+                _kill_pool(pool)
+                _POOL_RESTARTS += 1
+                if _POOL_RESTARTS > max_restarts:
+                    print(f"INCONCLUSIVE property={prop}: worker processes died {_POOL_RESTARTS} times "
+                          f"({len(queue) + len(ext)} instance(s) unfinished)")
+                    return None
+                print(f"NOTE property={prop}: a worker process died; {len(queue) + len(ext)} unfinished "
+                      f"instance(s) re-submitted to a fresh pool (restart {_POOL_RESTARTS})", flush=True)
+                pool = new_pool()
+                continue
+            if not done:
+                time.sleep(0.02)
+            if time.time() > hard + 60:
+                # a worker ignored its deadline (hang inside native code)
+                print(f"INCONCLUSIVE property={prop}: {len(inflight)} instance(s) never finished (worker hang)")
+                return None
+    finally:
+        _kill_pool(pool)
+    return results, skipped
+
+
 def run_check(modname, tier, seed, argv=()):
     mod = importlib.import_module(modname)
     prop = mod.PROPERTY
@@ -198,43 +296,10 @@ def run_check(modname, tier, seed, argv=()):
             print(f"INCONCLUSIVE property={prop}: preflight failed: {e!r}")
             traceback.print_exc()
             return 2
-    ctx = mp.get_context("spawn")
-    with ctx.Pool(nproc, initializer=_worker_init, initargs=(modname, REPO)) as pool:
-        pending = [pool.apply_async(_run_instance, (j,)) for j in jobs if j[1] == "core"]
-        ext = [j for j in jobs if j[1] != "core"]
-        # extended instances are submitted as long as the soft budget allows
-        ext_iter = iter(ext)
-        inflight = list(pending)
-        submitted_ext = 0
-        while inflight or ext_iter is not None:
-            # top up
-            while ext_iter is not None and len(inflight) < nproc * 2:
-                if time.time() - t0 > budget:
-                    rest = list(ext_iter)
-                    skipped = [j[0] for j in rest]
-                    ext_iter = None
-                    break
-                try:
-                    j = next(ext_iter)
-                except StopIteration:
-                    ext_iter = None
-                    break
-                inflight.append(pool.apply_async(_run_instance, (j,)))
-                submitted_ext += 1
-            done = [r for r in inflight if r.ready()]
-            for r in done:
-                inflight.remove(r)
-                results.append(r.get())
-            if not done:
-                time.sleep(0.02)
-            if not inflight and ext_iter is None:
-                break
-            if time.time() > hard + 60:
-                # a worker process died (its task never completes) or ignored its deadline
-                lost = len(inflight)
-                pool.terminate()
-                print(f"INCONCLUSIVE property={prop}: {lost} instance(s) never finished (worker crash or hang)")
-                return 2
+    out = _run_pool(modname, prop, jobs, nproc, t0, budget, hard)
+    if out is None:
+        return 2
+    results, skipped = out
     return finish(mod, prop, tier, seed, t0, insts, results, skipped, known, pre)
 
 
@@ -338,6 +403,7 @@ def finish(mod, prop, tier, seed, t0, insts, results, skipped, known, pre):
             stubs=getattr(mod, "STUBS", []),
             preflight=pre,
             known_findings_matched=sorted(known_hits),
+            worker_pool_restarts=_POOL_RESTARTS,
             exhaustive=not skipped and not incomplete,
         ),
         assumptions=getattr(mod, "ASSUMPTIONS", []),
